@@ -2182,6 +2182,13 @@ def read_lines(path_or_source, *, include=False, include_dirs=None):
     return lines
 
 
+def decode_escapes(text):
+    # unicode_escape reads its input as Latin-1, so going through UTF-8 garbles every non-ASCII character.
+    # Keep Latin-1 characters as they are and spell everything beyond as \uXXXX / \UXXXXXXXX escapes,
+    # which the decoder turns back into the original characters.
+    return text.encode('latin-1', 'backslashreplace').decode('unicode_escape')
+
+
 def lex_tokens(line):
     RE_ERROR = re.compile(r'\s*error (.*)')
     RE_STRING = re.compile(r'\s*string (.*)')
@@ -2194,7 +2201,7 @@ def lex_tokens(line):
     match = RE_ERROR.match(line.contents)
     if match is not None:
         message = match.group(1)
-        message = message.encode('utf-8').decode('unicode_escape')
+        message = decode_escapes(message)
         tokens = ['error', message]
         return LineTokens(line, tokens)
 
@@ -2202,7 +2209,7 @@ def lex_tokens(line):
     match = RE_STRING.match(line.contents)
     if match is not None:
         value = match.group(1)
-        value = value.encode('utf-8').decode('unicode_escape')
+        value = decode_escapes(value)
         tokens = ['string', value]
         return LineTokens(line, tokens)
 
